@@ -77,6 +77,19 @@ func init() {
 				return true
 			})
 		}
-		g.p("def ptraceOptions : List String := %s\n", leanStrList(opts))
+		g.p("def ptraceOptions : List String := %s\n\n", leanStrList(opts))
+		// the control socket pair of an environment: domain and type as NewSocketPair asks the kernel for them
+		var spArgs []string
+		if np := findFunc(parseFile("pkg/unixsocket/socket_linux.go"), "", "NewSocketPair"); np != nil {
+			ast.Inspect(np, func(n ast.Node) bool {
+				if ce, ok := n.(*ast.CallExpr); ok && strings.HasSuffix(exprStr(ce.Fun), "Socketpair") {
+					for _, a := range ce.Args {
+						spArgs = append(spArgs, exprStr(a))
+					}
+				}
+				return true
+			})
+		}
+		g.p("def socketPairArgs : List String := %s\n", leanStrList(spArgs))
 	})
 }
